@@ -170,6 +170,8 @@ def check_case(ctx, case):
         r = rng.random()
         if r < 0.5:
             b = rng.choice([rng.uniform(1e-3, 20), 10.0 ** rng.randint(-200, 200), rng.randint(2, 50)])
+            if b == 1:
+                b = 1.5
             attrs = {"base": b}
         elif r < 0.6:
             b = rng.choice([1, 1.0])
